@@ -360,18 +360,66 @@ type poolLayout struct {
 
 func (p poolLayout) gap(class int, nonEmpty bool) string {
 	if class == p.class {
+		if nonEmpty && p.text == "" {
+			return " "
+		}
 		return p.text
+	}
+	return minimalLayout{}.gap(class, nonEmpty)
+}
+
+// a layouter that also chooses the comment without newline at the very end of the text
+type finalCommenter interface {
+	final() string
+}
+
+// endLayout: the end of the text — the gap behind the last member and a last comment without newline — is
+// fixed, everything else minimal (input ending right behind an error's name, behind blanks, inside a comment)
+type endLayout struct {
+	gapText, comment string
+}
+
+func (l endLayout) gap(class int, nonEmpty bool) string {
+	if class == gapEnd {
+		return l.gapText
+	}
+	return minimalLayout{}.gap(class, nonEmpty)
+}
+
+func (l endLayout) final() string { return l.comment }
+
+// pairLayout: two classes get fixed texts (e.g. a line break in front of an error's parameter list and the next
+// member on the line of the closing parenthesis)
+type pairLayout struct {
+	c1 int
+	t1 string
+	c2 int
+	t2 string
+}
+
+func (p pairLayout) gap(class int, nonEmpty bool) string {
+	t, hit := "", false
+	if class == p.c1 {
+		t, hit = p.t1, true
+	} else if class == p.c2 {
+		t, hit = p.t2, true
+	}
+	if hit {
+		if nonEmpty && t == "" {
+			return " "
+		}
+		return t
 	}
 	return minimalLayout{}.gap(class, nonEmpty)
 }
 
 // randomLayout draws every gap independently
 type randomLayout struct {
-	g        *Rng
-	density  int  // chance (of 8) that a gap gets extra atoms
-	crlf     bool // newlines are CRLF
-	noDefect bool // keep G6/ig1 inside the classes the code accepts
-	used     map[string]bool
+	g       *Rng
+	density int  // chance (of 8) that a gap gets extra atoms
+	crlf    bool // newlines are CRLF
+	inline  int  // chance (of 8) that a member does not start on a new line
+	used    map[string]bool
 }
 
 func (r *randomLayout) gap(class int, nonEmpty bool) string {
@@ -382,15 +430,15 @@ func (r *randomLayout) gap(class int, nonEmpty bool) string {
 		n = 1 + r.g.Intn(3)
 	}
 	for i := 0; i < n; i++ {
-		k := r.g.Intn(len(idlAtoms))
-		if class == gapErrorType && (r.noDefect || r.g.Chance(7, 8)) {
-			k = r.g.Intn(2)
-		}
-		b.WriteString(idlAtoms[k])
+		b.WriteString(idlAtoms[r.g.Intn(len(idlAtoms))])
 	}
 	if class == gapAfterIfaceName || class == gapBetweenMembers || class == gapEnd {
 		// keep the members on lines of their own most of the time
-		if r.g.Chance(7, 8) {
+		inline := r.inline
+		if inline == 0 {
+			inline = 1
+		}
+		if !r.g.Chance(inline, 8) {
 			b.WriteString(base)
 		}
 	} else if r.g.Chance(1, 2) {
@@ -425,10 +473,17 @@ func (r *idlRender) emitGap(class int, nonEmpty bool) {
 }
 
 func (r *idlRender) noteGap(class int, s string) {
+	if (class == gapBetweenMembers || class == gapAfterIfaceName) && !strings.Contains(s, "\n") {
+		// the member does not start on a new line
+		r.gapFlags["g3=inline"] = true
+	}
 	if class != gapErrorType && class != gapIfaceKeywordName {
 		return
 	}
 	name := gapClassNames[class]
+	if hasOwnLineComment(s) {
+		r.gapFlags[name+"=ownlinecomment"] = true
+	}
 	if strings.Contains(s, "#") {
 		r.gapFlags[name+"=comment"] = true
 	} else if strings.Contains(s, "\n") {
@@ -436,6 +491,24 @@ func (r *idlRender) noteGap(class int, s string) {
 	} else if strings.Contains(s, "\r") {
 		r.gapFlags[name+"=cr"] = true
 	}
+}
+
+// hasOwnLineComment: the gap text contains a comment on a line of its own (behind a line break of the gap, only
+// blanks in front of the '#')
+func hasOwnLineComment(s string) bool {
+	for i := 0; i < len(s); i++ {
+		if s[i] != '\n' {
+			continue
+		}
+		j := i + 1
+		for j < len(s) && isBlankByte(s[j]) {
+			j++
+		}
+		if j < len(s) && s[j] == '#' {
+			return true
+		}
+	}
+	return false
 }
 
 func startsAlnum(s string) bool {
@@ -567,6 +640,17 @@ func renderIdl(d *gIdl, lay layouter, finalComment string) *idlRender {
 		}
 	}
 	r.emitGap(gapEnd, false)
+	if n := len(d.members); n > 0 && d.members[n-1].kind == 'R' && d.members[n-1].t1 == nil {
+		// the text ends behind an error without parameters: directly, behind layout, inside a last comment
+		switch {
+		case finalComment != "":
+			r.gapFlags["errend=comment"] = true
+		case r.lastGap == "":
+			r.gapFlags["errend=eof"] = true
+		default:
+			r.gapFlags["errend=layout"] = true
+		}
+	}
 	r.b.WriteString(finalComment)
 	return r
 }
@@ -621,14 +705,16 @@ func docAbove(text string, kw int) (doc string) {
 }
 
 // expectedOf fills in the documentation the text gives to the interface and to every member and returns
-// feature tags describing the layout classes that matter for known findings.
+// feature tags describing the layout classes around an error's name (former known findings of C05: the gap in
+// front of the parameter list, a member on the line of an error without parameters, the end of the text).
 func expectedOf(d *gIdl, r *idlRender) (text string, tags []string) {
 	text = r.b.String()
 	d.doc = docAbove(text, r.ifaceKw)
 	for i := range d.members {
 		d.members[i].doc = docAbove(text, r.kwOffset[i])
 	}
-	for _, k := range []string{"g6=nl", "g6=cr", "g6=comment", "ig1=nl", "ig1=comment", "g3err=inline"} {
+	for _, k := range []string{"g6=nl", "g6=cr", "g6=comment", "g6=ownlinecomment", "ig1=nl", "ig1=comment", "g3=inline", "g3err=inline",
+		"errend=eof", "errend=layout", "errend=comment"} {
 		if r.gapFlags[k] {
 			tags = append(tags, k)
 		}
